@@ -202,8 +202,15 @@ def record(cfg: dict, seed: int, terms: dict) -> sweep.SweepLog:
     as_int = bool(np.all(P == np.round(P)) and (i // len(FAMILIES)) % 2 == 0)   # integer pressure column, as read from a csv file
     pvt_t, kr_t = mp.frames(P.astype(np.int64) if as_int else P, tab["cols"], so_t, kr_so, kr_cols, sw_kr, as_frame=bool(i % 2 == 0))
     dens = mp.reordered(rho, i)          # the caller's dictionary: kept, updated and used again below (a parameter study)
+    # every fifth table is listed in depletion order (rows from high to low pressure; from_table takes rows in any order and
+    # answers row for row)
+    depletion = i % 5 == 3
+    if depletion:
+        pvt_t = pvt_t.iloc[::-1] if hasattr(pvt_t, "iloc") else {k: np.asarray(v)[::-1].copy() for k, v in pvt_t.items()}
     fp = mp.from_table(pvt_t, kr_t, rho, phi, sw, float(P[-1]), rho_dict=dens)
     tab_alpha = np.asarray(fp.pvt_props["alpha"], float)
+    if depletion and tab_alpha.ndim == 1:
+        tab_alpha = tab_alpha[::-1]
     # the same functions through the accessors the object carries (how a simulator uses the object)
     have_acc = isinstance(getattr(fp, "pvt", None), dict) and isinstance(getattr(fp, "kr", None), dict)
     if have_acc:
